@@ -468,6 +468,78 @@ theorem conv_injective (cap : Nat) :
       cases e
       rw [mapOpt_injective (conv cap t t') vs vs' ws (fun x _ x' y hx hx' => ih t' x x' y hx hx') hws hws']
 
+theorem mapOpt_roundtrip (f g : V → Option V) : ∀ (vs ws vs' : List V),
+    (∀ v ∈ vs, ∀ w v', f v = some w → g w = some v' → v' = v) →
+    mapOpt f vs = some ws → mapOpt g ws = some vs' → vs' = vs
+  | [], ws, vs', _, h, h' => by
+    simp [mapOpt] at h; subst h
+    simp [mapOpt] at h'; exact h'
+  | v :: vs, ws, vs', hr, h, h' => by
+    obtain ⟨w, ws1, rfl, hv, hrest⟩ := mapOpt_cons f v vs ws h
+    obtain ⟨u, us, rfl, hw, hrest'⟩ := mapOpt_cons g w ws1 vs' h'
+    rw [hr v (by simp) w u hv hw,
+      mapOpt_roundtrip f g vs ws1 us (fun x hx => hr x (List.mem_cons_of_mem _ hx)) hrest hrest']
+
+/-- **Round trip**: where the reverse conversion exists (it accepts the converted value), it returns the original value —
+for every pair of types of the fragment and every value, at any nesting depth. -/
+theorem conv_roundtrip (cap : Nat) :
+    ∀ (A B : DT) (v w v' : V), conv cap A B v = some w → conv cap B A w = some v' → v' = v := by
+  intro A
+  induction A with
+  | int a =>
+    intro B v w v' h h'
+    obtain ⟨n, rfl⟩ := conv_shape_int h
+    cases B with
+    | int b =>
+      obtain ⟨_, rfl⟩ := conv_int_int h
+      exact (conv_int_int h').2
+    | opt b =>
+      obtain ⟨_, rfl⟩ := conv_int_opt h
+      simp [conv] at h'
+    | pair _ _ => simp [conv] at h
+    | list _ _ => simp [conv] at h
+  | opt a =>
+    intro B v w v' h h'
+    cases B with
+    | int b => cases v <;> simp [conv] at h
+    | opt b =>
+      rcases conv_shape_opt h with rfl | ⟨n, rfl⟩
+      · have e := conv_opt_none h; subst e
+        exact conv_opt_none h'
+      · obtain ⟨_, rfl⟩ := conv_opt_some h
+        exact (conv_opt_some h').2
+    | pair _ _ => cases v <;> simp [conv] at h
+    | list _ _ => cases v <;> simp [conv] at h
+  | pair a1 a2 ih1 ih2 =>
+    intro B v w v' h h'
+    cases B with
+    | int b => cases v <;> simp [conv] at h
+    | opt b => cases v <;> simp [conv] at h
+    | pair b1 b2 =>
+      obtain ⟨x, y, rfl⟩ := conv_shape_pair h
+      obtain ⟨wx, wy, hx, hy, rfl⟩ := conv_pair h
+      obtain ⟨ux, uy, hx', hy', rfl⟩ := conv_pair h'
+      rw [ih1 b1 x wx ux hx hx', ih2 b2 y wy uy hy hy']
+    | list _ _ => cases v <;> simp [conv] at h
+  | list t sz ih =>
+    intro B v w v' h h'
+    cases B with
+    | int b => cases v <;> simp [conv] at h
+    | opt b => cases v <;> simp [conv] at h
+    | pair _ _ => cases v <;> simp [conv] at h
+    | list t' sz' =>
+      obtain ⟨vs, rfl⟩ := conv_shape_list h
+      obtain ⟨ws, hws, _, rfl⟩ := conv_list h
+      obtain ⟨us, hus, _, rfl⟩ := conv_list h'
+      rw [mapOpt_roundtrip (conv cap t t') (conv cap t' t) vs ws us (fun x _ y z hx hy => ih t' x y z hx hy) hws hus]
+
+/-- non-vacuity of the round trip: a struct with a list goes to a wider type and comes back -/
+example :
+    let A : DT := .pair (.opt [(1, 3)]) (.list (.int [(0, 5)]) [(1, 2)])
+    let B : DT := .pair (.opt [(0, 4)]) (.list (.int [(0, 9)]) [(0, 2)])
+    let v : V := .pair (.some (.i 2)) (.list [.i 4, .i 0])
+    conv 128 A B v = some v ∧ conv 128 B A v = some v := ⟨by rfl, by rfl⟩
+
 /-- **Refused, not approximated**: a leaf outside the target's range makes the whole conversion fail. -/
 theorem conv_refuses_leaf (cap : Nat) (a b : Ivs) (n : Int) (h : containsV cap b n = false) :
     conv cap (.int a) (.int b) (.i n) = none ∧ conv cap (.int a) (.opt b) (.i n) = none ∧ conv cap (.opt a) (.opt b) (.some (.i n)) = none := by
